@@ -295,6 +295,11 @@ def put_inventories(draw, d, v, u=None, defect=None, keep_used=None):
         labels.append('unknown-class')
     if defect == 'stale-gen':
         labels.append('stale-gen')
+    if defect == 'reserved-exceeds-total' and invs:
+        k = draw(st.sampled_from(sorted(invs)))
+        invs[k] = dict(invs[k])
+        invs[k]['reserved'] = invs[k]['total'] + draw(st.integers(0, 2))
+        labels.append('reserved-exceeds-total')
     if defect == 'bad-schema':
         k = sorted(invs) and draw(st.sampled_from(sorted(invs)))
         if k:
@@ -341,6 +346,9 @@ def post_inventory(draw, d, v, u=None, defect=None):
         rc = draw(st.sampled_from(CLASSES))
         labels.append('exists')
     body = draw_inventory(draw)
+    if defect == 'reserved-exceeds-total':
+        body['reserved'] = body['total'] + draw(st.integers(0, 2))
+        labels.append('reserved-exceeds-total')
     body['resource_class'] = rc
     return R('POST', '/resource_providers/%s/inventories' % u, v, body,
              'post_inventory', labels, target=u)
@@ -365,6 +373,9 @@ def put_inventory(draw, d, v, u=None, defect=None):
         rc = 'CUSTOM_PV_NOPE'
         labels.append('unknown-class')
     body = draw_inventory(draw)
+    if defect == 'reserved-exceeds-total':
+        body['reserved'] = body['total'] + draw(st.integers(0, 2))
+        labels.append('reserved-exceeds-total')
     body['resource_provider_generation'] = _gen_for(draw, d, u, defect)
     if defect == 'stale-gen':
         labels.append('stale-gen')
@@ -754,6 +765,17 @@ def reshaper(draw, d, v, defect=None):
         inv_body[u] = {
             'resource_provider_generation': _gen_for(draw, d, u, None),
             'inventories': invs}
+    if defect == 'reserved-exceeds-total':
+        # the reshaper schema (unlike PUT inventories' handler) lets reserved
+        # exceed total: legal input whose capacity is negative
+        cands = [(u, rc) for u in sorted(newinv) for rc in sorted(newinv[u])]
+        if cands:
+            u, rc = draw(st.sampled_from(cands))
+            newinv[u][rc] = dict(newinv[u][rc])
+            newinv[u][rc]['reserved'] = newinv[u][rc]['total'] + draw(
+                st.integers(1, 3))
+            inv_body[u]['inventories'] = newinv[u]
+            labels.append('reserved-exceeds-total')
     if defect == 'stale-gen':
         # exactly one of the named providers carries a stale generation
         # (any position in the body)
